@@ -387,8 +387,32 @@ def check(run: Run) -> None:
         wipe = R.either(R.call_is(name="switch_teardown"), R.store_is(r".*active_key", r"Value\{\}"))
         R.k2_never_after(run, "C12.n", fl, rec, wipe, "activate_branch: the new key is recorded, then the retirement of the old branch clears active_key")
 
+    with run.obligation("C12.o", "K7", "a branch's captured outer values are re-targeted through the SHARED slot table: in every branch compiler (switch_, dispatch_) the boundary path of "
+                        "the i-th capture of a branch becomes `1 + captured_slots[i]` (the slot that capture was given among the node's outer inputs - captures are "
+                        "de-duplicated across branches and follow positional and keyword arguments), never a position computed from the branch-local index"):
+        HO2 = "include/hgraph/lib/std/operators/impl/higher_order_impl.h"
+        n_rt = 0
+        for fd_ in t.file(HO2).funcs:
+            if fd_.body is None or "captured_slots" not in t.file(HO2).text(fd_.body[0], fd_.body[1]):
+                continue
+            if any(o is not fd_ and o.body is not None and o.body[0] > fd_.body[0] and o.body[1] < fd_.body[1] and "captured_slots" in t.file(HO2).text(o.body[0], o.body[1]) for o in t.file(HO2).funcs):
+                continue
+            fa_ = R.parse(run, fd_, strict=False)
+            cn_ = R.Canon()
+            for arm in [s0 for s0 in fa_.body.walk() if isinstance(s0, C.If) and cn_(s0.cond).replace(" ", "") in ("appended_index<captured_slots.size()", "captured_slots.size()>appended_index")]:
+                for asg in [x for x in arm.then.walk() if isinstance(x, C.Binary) and x.op == "=" and cn_(x.l).replace(" ", "") == "path[0]"]:
+                    n_rt += 1
+                    run.count(1, "C12.o")
+                    rhs = cn_(asg.r).replace(" ", "")
+                    if rhs not in ("1+captured_slots[appended_index]", "captured_slots[appended_index]+1"):
+                        run.finding("C12.o", f"{fd_.name}:capture-retargeted-by-position", f"{fd_.qual}: the boundary path of a branch capture becomes `{rhs}` instead of "
+                                    "`1 + captured_slots[appended_index]`: a branch whose captures are not the first ones appended (different captures per branch, another order, "
+                                    "keyword arguments, a capture that is also an argument) silently reads a sibling's captured source of the same schema", loc=fa_.loc(asg))
+        run.sites(n_rt, 2, "capture re-target assignments")
+
 
 VARIANTS = [
+    {"id": "o-seed-C12-8-capture-retarget-positional", "expect": "C12.o", "edits": [{"file": "include/hgraph/lib/std/operators/impl/higher_order_impl.h", "find": "path[0] = 1 + captured_slots[appended_index];", "replace": "path[0] = 1 + positional_count + appended_index;"}]},
     {"id": "n-seed-C08-8-key-recorded-before-retirement", "expect": "C12.n", "edits": [{"file": SW, "find": "  construction_rollback.release();\n\n  if (context.spec.output_forwards_to_child_terminal) {", "replace": "  construction_rollback.release();\n  storage.active_key = std::move(key);\n\n  if (context.spec.output_forwards_to_child_terminal) {"}]},
     {"id": "m-seed-C12-5-sampling-requires-all-valid", "expect": "C12.m", "edits": [{"file": "include/hgraph/runtime/nested_bindings.h", "find": "    return active && (input.valid() || accepts_invalid);", "replace": "    return active && (input.all_valid() || accepts_invalid);"}]},
     {"id": "l-key-set-path-always-sampled", "expect": "C12.l", "edits": [{"file": SW, "find": "      if (sampled) {\n        bind_sampled_input_to_source(std::move(target), source,\n                                     evaluation_time);\n      } else {\n        bind_input_to_source(std::move(target), source);\n      }", "replace": "      bind_sampled_input_to_source(std::move(target), source,\n                                   evaluation_time);"}]},
